@@ -41,6 +41,8 @@ POSITIONS = {
     "async_with_item": "async with {E} as fh:\n{I}    pass", "slice_upper_step": "v = v[1:{E}:2]", "conditional_lambda_default": "v = lambda q={E}: q", "print_to_file_kw": "print(1, file={E})",
     "set_comp": "v = {{E} for k in v}", "dict_comp_key": "v = {{E}: k for k in v}", "comp_second_iter": "v = [k for j in v for k in {E}]", "comp_two_ifs": "v = [k for k in v if k if {E}]",
     "string_format_call": "v = \"{}\".format({E})", "percent_format": "v = \"%s\" % {E}", "matmul": "v = v @ {E}", "in_operator": "v = 1 in {E}", "is_operator": "v = {E} is None",
+    # positions reported by a fourth-round reviewer of the unchanged tree
+    "subscript_tuple": "v = v[0, {E}]", "expr_tuple_stmt": "1, {E}", "subscript_tuple_target": "v[{E}, 0] = 1",
     "global_then_use": "global G\n{I}G = {E}", "nonlocal_free": "w = [{E}][0]", "return_parenthesised": "return ({E})", "return_await_free": "return [{E}, 2][0]",
 }
 ASYNC_ONLY = {"await", "async_for_iter", "async_with_item"}
